@@ -588,6 +588,12 @@ Proof.
   inv_bind HF2. rewrite Hx3. cbn [bind fst]. inversion HF2; subst. reflexivity.
 Qed.
 
+Lemma mapM_length_star L Fs L' Fs' : star_round L Fs = Ok (L', Fs') -> length Fs' = length Fs.
+Proof.
+  unfold star_round. intros H. inv_bind H. inv_bind H. inv_bind H. inv_bind H. inversion H; subst.
+  rewrite (mapM_length _ _ _ Hx2), (mapM_length _ _ _ Hx). reflexivity.
+Qed.
+
 (* ================================================================== *)
 (* 7.5 the star invariant and convergence                              *)
 (* ================================================================== *)
@@ -1216,3 +1222,171 @@ Proof.
     eapply lfr_trans; [exact F1|]. apply IH; try assumption; try congruence.
     apply (Forall_inv_tail Hall).
 Qed.
+
+(* ================================================================== *)
+(* 7.7 the star: the leader's commit index                             *)
+(* ================================================================== *)
+Section StarCommit.
+
+Variables (LL : LL) (T l : N) (rw rwl : bool) (l0 : raft_log) (lof : N -> N).
+Hypothesis HLL : LeaderLog LL.
+Hypothesis HT : T <> 0.
+Hypothesis Hl0 : RepInv rwl l0.
+Hypothesis Habs0 : abs l0 = LL.
+(* the last entry of the leader's log is of its own term *)
+Hypothesis HlastT : ll_term LL (ll_last LL) = SOk T.
+
+Local Notation FolInv := (FolInv LL T l rw l0 lof).
+Local Notation StarInv := (StarInv LL T l rw l0 lof).
+Local Notation LCore := (LCore T l l0).
+
+Lemma LCore_LeadS L : LCore L -> incoming (conf_of L) <> [] -> LeadS T (ll_last LL) L.
+Proof.
+  intros HC Hinc. destruct (same_ents_lookups LL rwl l0 Hl0 Habs0 _ (lc_log _ _ _ _ HC)) as (Lt & Ll & _).
+  split; [apply (lc_state _ _ _ _ HC)|]. split; [apply (lc_term _ _ _ _ HC)|]. split; [exact Ll|].
+  split; [rewrite Lt, HlastT; reflexivity|exact Hinc].
+Qed.
+
+(* a tick of the leader touches neither the log nor the progress map *)
+Lemma leader_tick_frame L L2 hr :
+  LCore L -> tick L = Ok (L2, hr) -> LCore L2 /\ r_log L2 = r_log L /\ r_prs L2 = r_prs L.
+Proof.
+  intros HC H. pose proof HC as [C1 C2 C3 C4 C5 C6 C7 C8].
+  assert (Hbeat : forall X hr0, LCore X -> beat_phase X hr0 = Ok (L2, hr) ->
+                    LCore L2 /\ r_log L2 = r_log X /\ r_prs L2 = r_prs X).
+  { intros X hr0 HX Hb. unfold beat_phase in Hb. destruct (_ <=? _).
+    - rewrite bcast_heartbeat_eq in Hb. cbn [bind] in Hb. inversion Hb; subst L2 hr.
+      split; [destruct HX; constructor; cbn; auto|]. split; reflexivity.
+    - inversion Hb; subst L2 hr. auto. }
+  destruct (N.lt_ge_cases (r_election_elapsed L + 1) (r_election_timeout L)) as [He|He].
+  - rewrite (leader_heartbeats L C1 He) in H.
+    apply (Hbeat (ticked L) false); [constructor; cbn; auto|exact H].
+  - rewrite (checkquorum_stepdown L C1 He), C7 in H.
+    apply (Hbeat (after_check L false) false); [constructor; cbn; auto|exact H].
+Qed.
+
+Lemma replies_typed Hb L G G1 :
+  FolInv Hb L G -> steps G (to_peer (r_id G) (r_msgs L)) = Ok G1 ->
+  Forall (fun m => resp_typed T m /\ m_from m = r_id G) (replies l G1).
+Proof.
+  intros (Hlg & Hlo & HloT & a & HI) Hs.
+  destruct HI as [HC _ HF HFq Hq _ _].
+  destruct (follower_steps LL T l (r_id G) (lof (r_id G)) rw HLL Hlo HT Hlg _ a G G1 HF Hq Hs)
+    as (a1 & resps & _ & _ & _ & M1 & Ch & _).
+  rewrite HFq in M1. cbn [app] in M1. unfold replies. rewrite M1.
+  apply Forall_forall. intros m Hm. unfold to_peer in Hm. apply filter_In in Hm. destruct Hm as [Hm _].
+  pose proof (resp_chain_all T l _ _ _ _ Ch) as Hall. rewrite Forall_forall in Hall.
+  destruct (Hall m Hm) as (b & Rt & Rf & _ & Rk).
+  split; [|exact Rf]. split; [exact Rt|].
+  destruct Rk as [(A & B)|[(A & _)|(A & _)]]; auto.
+Qed.
+
+Lemma concat_replies_typed Hb L A A1 :
+  mapM (fun F => steps F (to_peer (r_id F) (r_msgs L))) A = Ok A1 ->
+  Forall (FolInv Hb L) A ->
+  Forall (fun m => resp_typed T m /\ m_from m <> l) (concat (map (replies l) A1)).
+Proof.
+  intros HA Hall. rewrite Forall_forall in Hall. apply Forall_forall. intros m Hm. apply in_concat in Hm.
+  destruct Hm as (ms & Hms & Hm). apply in_map_iff in Hms. destruct Hms as (G1 & <- & HG1).
+  destruct (mapM_In _ _ _ _ HA HG1) as (G & HG & Hs).
+  pose proof (replies_typed Hb L G G1 (Hall G HG) Hs) as Hf. rewrite Forall_forall in Hf.
+  destruct (Hf m Hm) as [A1' A2]. split; [exact A1'|].
+  destruct (Hall G HG) as (Hlg & _). congruence.
+Qed.
+
+(* one round of the star keeps the leader's commit invariant; the commit index never goes
+   back; the leader's own Progress keeps its matched *)
+Lemma star_round_CommitInv Hb L Fs L' Fs' :
+  StarInv Hb L Fs -> Fs <> [] -> incoming (conf_of L) <> [] ->
+  CommitInv (ll_last LL) L -> star_round L Fs = Ok (L', Fs') ->
+  incoming (conf_of L') <> [] /\ conf_of L' = conf_of L /\ CommitInv (ll_last LL) L' /\
+  committed (r_log L) <= committed (r_log L') /\
+  option_map matched (get_pr L' l) = option_map matched (get_pr L l).
+Proof.
+  intros [Hnd Hall] Hne Hinc HCI H.
+  assert (HC : LCore L).
+  { destruct Fs as [|F0 t]; [congruence|]. pose proof (Forall_inv Hall) as (_ & _ & _ & a & HI).
+    apply (pv_core _ _ _ _ _ _ _ _ _ _ _ HI). }
+  unfold star_round in H. inv_bind H. rename x into Fs1. inv_bind H. rename x into L1.
+  inv_bind H. destruct x as [L2 hr]. inv_bind H. cbn [fst] in H. inversion H; subst L' Fs'; clear H.
+  rewrite (lc_id _ _ _ _ HC) in Hx0.
+  pose proof (concat_replies_typed Hb L Fs Fs1 Hx Hall) as Hty.
+  set (L0 := L <| r_msgs := [] |>) in *.
+  assert (HC0 : LCore L0) by (destruct HC; constructor; cbn; auto).
+  assert (HS0 : LeadS T (ll_last LL) L0) by (apply LCore_LeadS; [exact HC0|exact Hinc]).
+  assert (Hty1 : Forall (resp_typed T) (concat (map (replies l) Fs1))).
+  { eapply Forall_impl; [|exact Hty]. intros m [A _]. exact A. }
+  destruct (steps_CommitInv T (ll_last LL) _ L0 L1 HT
+              ltac:(pose proof (lg_bound _ HLL); lia) Hty1 HS0 HCI Hx0)
+    as (HS1 & HC1 & Hmono & Hoth).
+  pose proof (steps_lfr T _ L0 L1 HT (lc_state _ _ _ _ HC0) (lc_term _ _ _ _ HC0) Hty1 Hx0) as Hl1.
+  pose proof (lfr_LCore _ _ _ _ _ Hl1 HC0) as HCL1.
+  destruct (leader_tick_frame L1 L2 hr HCL1 Hx1) as (HC2 & Hlog2 & Hprs2).
+  assert (Hconf1 : conf_of L1 = conf_of L).
+  { clear - Hx0 Hty1 HT HC0. revert Hx0 Hty1. generalize (concat (map (replies l) Fs1)). intros ms.
+    change (conf_of L) with (conf_of L0).
+    assert (Hs : r_state L0 = Leader /\ r_term L0 = T)
+      by (split; [apply (lc_state _ _ _ _ HC0)|apply (lc_term _ _ _ _ HC0)]).
+    revert Hs. generalize L0. induction ms as [|m t IH]; intros r [Hs Ht] H Hall; cbn [steps] in H.
+    - congruence.
+    - inv_bind H. destruct x as [r1 c1]. cbn [fst] in H.
+      pose proof (leader_step_fr T r m r1 c1 HT Hs Ht (Forall_inv Hall) Hx) as (G1 & _ & _ & G4 & _ & _ & G7).
+      rewrite (IH r1 ltac:(split; congruence) H (Forall_inv_tail Hall)). exact G4. }
+  assert (Hconf2 : conf_of L2 = conf_of L) by (unfold conf_of in *; rewrite Hprs2; exact Hconf1).
+  split; [rewrite Hconf2; exact Hinc|]. split; [exact Hconf2|].
+  split.
+  { destruct HC1 as [D1 D2]. unfold CommitInv. rewrite Hlog2. split; [exact D1|].
+    intros Hav. apply D2. intros v Hv. unfold conf_of in *. rewrite <- Hprs2 in Hv.
+    destruct (Hav v Hv) as (p & Hg & Hm). exists p. split; [|exact Hm].
+    unfold get_pr in *. rewrite <- Hprs2. exact Hg. }
+  split; [rewrite Hlog2; exact Hmono|].
+  unfold get_pr at 1. rewrite Hprs2. fold (get_pr L1 l). rewrite Hoth; [reflexivity|].
+  intros Hin. apply in_map_iff in Hin. destruct Hin as (m & Em & Hm).
+  rewrite Forall_forall in Hty. destruct (Hty m Hm) as [_ Hne']. congruence.
+Qed.
+
+Lemma star_rounds_CommitInv n : forall Hb L Fs L' Fs',
+  StarInv Hb L Fs -> Fs <> [] -> incoming (conf_of L) <> [] ->
+  CommitInv (ll_last LL) L -> star_rounds n L Fs = Ok (L', Fs') ->
+  conf_of L' = conf_of L /\ CommitInv (ll_last LL) L' /\
+  committed (r_log L) <= committed (r_log L') /\
+  option_map matched (get_pr L' l) = option_map matched (get_pr L l).
+Proof.
+  induction n as [|n IH]; intros Hb L Fs L' Fs' HS Hne Hinc HCI H; cbn [star_rounds] in H.
+  - inversion H; subst L' Fs'. split; [reflexivity|]. split; [exact HCI|]. split; [lia|reflexivity].
+  - inv_bind H. destruct x as [L1 Fs1]. cbn [fst snd] in H.
+    destruct (star_round_CommitInv Hb L Fs L1 Fs1 HS Hne Hinc HCI Hx) as (I1 & Cf1 & C1 & M1 & O1).
+    pose proof (star_round_StarInv LL T l rw rwl l0 lof HLL HT Hl0 Habs0 Hb L Fs L1 Fs1 HS Hx) as HS1.
+    assert (Hne1 : Fs1 <> []).
+    { pose proof (mapM_length_star _ _ _ _ Hx) as Hl. destruct Fs1; [|discriminate].
+      destruct Fs; [congruence|discriminate]. }
+    destruct (IH Hb L1 Fs1 L' Fs' HS1 Hne1 I1 C1 H) as (Cf2 & C2 & M2 & O2).
+    split; [congruence|]. split; [exact C2|]. split; [lia|congruence].
+Qed.
+
+(* MAIN 7b: at the end of the run the leader has committed its whole log *)
+Theorem star_leader_commits Hb L Fs N0 L' Fs' pl :
+  StarInv Hb L Fs -> Fs <> [] -> 1 <= Hb ->
+  (forall F, In F Fs -> (star_bound Hb (ll_last LL) (lof (r_id F)) <= N0)%nat) ->
+  (* voters: the leader and (some of) the followers; the configuration has voters *)
+  incoming (conf_of L) <> [] ->
+  (forall v, In v (incoming (conf_of L)) \/ In v (outgoing (conf_of L)) ->
+             v = l \/ In v (map r_id Fs)) ->
+  (* the leader's own Progress: its log is persisted *)
+  get_pr L l = Some pl -> matched pl = ll_last LL ->
+  CommitInv (ll_last LL) L ->
+  star_rounds N0 L Fs = Ok (L', Fs') ->
+  committed (r_log L') = ll_last LL.
+Proof.
+  intros HS Hne HH HN Hinc Hvot Hgl Hml HCI H.
+  destruct (star_converges LL T l rw rwl l0 lof HLL HT Hl0 Habs0 Hb L Fs N0 L' Fs' HS HH HN H) as [HS' HF].
+  destruct (star_rounds_CommitInv N0 Hb L Fs L' Fs' HS Hne Hinc HCI H) as (Cf & [_ C2] & _ & Own).
+  apply C2. intros v Hv. rewrite Cf in Hv. destruct (Hvot v Hv) as [->|Hin].
+  - rewrite Hgl in Own. cbn in Own. destruct (get_pr L' l) as [p|]; [|discriminate].
+    exists p. split; [reflexivity|]. cbn in Own. congruence.
+  - apply in_map_iff in Hin. destruct Hin as (F & <- & HFin).
+    clear - HF HFin. induction HF as [|x y xs ys (_ & pr' & Hg & Hm & _) _ IH]; [destruct HFin|].
+    destruct HFin as [->|HFin]; [exists pr'; auto|apply IH; exact HFin].
+Qed.
+
+End StarCommit.
